@@ -131,6 +131,30 @@ def validate_traces(v, records, sc, tag):
     return {"events": n, "viol": viol}
 
 
+def conform(v, records, sc, tag, max_runs=0):
+    """Direction B with the session machine's own actions (spec/PipelineConform.tla): every run of the recording is replayed through
+    Pipeline.tla; returns the runs the machine could not explain."""
+    tr, idx = os.path.join(sc, tag + ".conform.ndjson"), os.path.join(sc, tag + ".conform.idx")
+    subprocess.run([v, "pipe-conform", "--records", records, "--out", tr, "--index", idx, "--max-runs", str(max_runs)], check=True)
+    lines = open(tr).read().splitlines()
+    n = len(lines)
+    if n == 0:
+        return {"events": 0, "runs": 0, "rejected": []}
+    r = c.tlc("PipelineConform", "PipelineConform.cfg", workers=1, defines={"pipeline_conform.ndjson": "\n".join(lines) + "\n"}, timeout=3000,
+              java_opts=["-Xss512m"])
+    if (r.error and not r.postcondition_false) or r.rc == 124 or r.depth - 1 != n:
+        raise c.Trouble("conformance replay through Pipeline.tla failed to run (%d of %d lines):\n%s" % (r.depth - 1, n, r.out[-2500:]))
+    index = open(idx).read().splitlines()
+    rejected = []
+    for line in r.out.splitlines():
+        if line.startswith('"REJECT '):
+            parts = line.strip('"').split()
+            ln = int(parts[1])
+            cid, run = index[ln - 1].split()
+            rejected.append({"id": cid, "run": run, "event": parts[2], "state": parts[3] if len(parts) > 3 else "", "line": ln})
+    return {"events": n, "runs": sum(1 for x in lines if '"event":"Run"' in x), "rejected": rejected}
+
+
 def repo_tests_traces(sc, tier):
     """Direction B on the repository's own tests: their pipeline runs, traced by the hooks, must obey the same ordering rules."""
     out = os.path.join(sc, "repotests.ndjson")
@@ -208,6 +232,7 @@ def build_recording(tier):
     if thorough:
         plan.append(("Pipeline_c10sim.cfg", 1500, None, A0))
     import concurrent.futures
+    conf = {"events": 0, "runs": 0, "rejected": []}
 
     def emit(item):
         cfgname, sim, take, flags = item
@@ -231,6 +256,11 @@ def build_recording(tier):
             raise c.Trouble("no cases from " + cfgname)
         prec = part + ".rec"
         pipe_run(v, g, part, prec, work, flags)
+        if cfgname not in HOSTILE_SETS:
+            cf = conform(v, prec, sc, "cf-" + cfgname)
+            conf["events"] += cf["events"]
+            conf["runs"] += cf["runs"]
+            conf["rejected"] += [dict(x, prop=CONFORM_PROP.get(x["event"], "C14"), cfg=cfgname) for x in cf["rejected"]]
         with open(cases, "a") as f:
             f.write(open(part).read())
         with open(rec, "a") as f:
@@ -284,6 +314,7 @@ def build_recording(tier):
     if rt["viol"]:
         raise c.Trouble("the repository's own tests produce traces the trace specification rejects (spec too strict or hook misplaced): %s" % rt["viol"][:3])
     meta["repo_tests"] = {"events": rt["events"], "packages": rt["packages"]}
+    meta["conform"] = conf
     meta["trace"] = {"events": tv["events"] + tv13["events"] + rt["events"], "viol": tv["viol"] + tv13["viol"]}
     meta["wall"] = round(time.time() - t0, 1)
     json.dump(meta, open(os.path.join(d, "meta.json"), "w"), indent=1)
@@ -294,6 +325,11 @@ def build_recording(tier):
     return d
 
 
+# input sets whose projects the session machine does not claim to predict (verbatim hostile declarations, malformed properties)
+HOSTILE_SETS = {"Pipeline_c14sim.cfg", "Pipeline_c14types.cfg"}
+# which property a run belongs to when the session machine cannot explain it at this event
+CONFORM_PROP = {"Validated": "C10", "RunFailedOnDiagnostics": "C10", "Reduced": "C10", "RoutesWritten": "C10", "ConfigAccepted": "C20", "ConfigRejected": "C20",
+                "PackagesLoad": "C20", "Spec30Built": "C08", "Spec30Validated": "C08", "Spec31Built": "C08", "Spec31Validated": "C08", "SpecWritten": "C08", "Exit": "C14"}
 KNOWN_PATTERNS = {}   # signature -> (prop, regex on the finding text); filled from known_findings.json entries that carry a "match"
 
 
@@ -313,6 +349,11 @@ def confirm(prop, cid, d, extra):
     j = judge(v, rec, rec + ".json")
     tv = validate_traces(v, rec, sc, "one-" + cid)
     found = [f for f in j["findings"] if f["prop"] == prop] + [dict(prop=x["prop"], id=x["id"], what="trace rule violated at %s of run %s" % (x["event"], x["run"]), **{"class": "violation"}) for x in tv["viol"] if x["prop"] == prop]
+    if prop != "C13" and not any(t_.get("kind") == "raw" or t_.get("name") == "Hostile" for t_ in json.loads(json.loads(open(one).readline())[5:]).get("types", [])):
+        cf = conform(v, rec, sc, "one-cf-" + cid)
+        found += [{"prop": prop, "id": cid, "class": "violation",
+                   "what": "run %s is not a behaviour of the session machine (Pipeline.tla): event %s cannot be taken in state %s" % (x["run"], x["event"], x["state"])}
+                  for x in cf["rejected"] if CONFORM_PROP.get(x["event"], "C14") == prop]
     return found, one
 
 
@@ -328,6 +369,10 @@ def run(tier, prop):
     findings = [f for f in src["findings"] if f["prop"] == prop]
     findings += [{"prop": x["prop"], "id": x["id"], "what": "trace rule violated at %s of run %s" % (x["event"], x["run"]), "class": "violation"}
                  for x in meta["trace"]["viol"] if x["prop"] == prop]
+    if prop != "C13":
+        findings += [{"prop": x["prop"], "id": x["id"], "class": "violation",
+                      "what": "run %s is not a behaviour of the session machine (Pipeline.tla): event %s cannot be taken in state %s" % (x["run"], x["event"], x["state"])}
+                     for x in meta.get("conform", {}).get("rejected", []) if x["prop"] == prop]
     known = c.known_for(prop)
     violations, known_hits, seen = [], [], set()
     def coarse(f):
@@ -393,7 +438,9 @@ def run(tier, prop):
            "traces_validated_against_impl": src["evaluated"].get(prop, 0), "evaluations": src["evaluated"].get(prop, 0),
            "distinct_nontrivial": src["nontrivial"].get(prop, 0), "samples": src["samples"].get(prop, [])[:3] or [{"note": "no non-trivial sample in this run"}],
            "cases": src["cases"], "accepted_cases": src["accepted"], "skipped": src["skipped"].get(prop, 0),
-           "hook_events_validated_by_tlc": meta["trace"]["events"], "models": models, "emission": meta["emission"],
+           "hook_events_validated_by_tlc": meta["trace"]["events"],
+           "runs_replayed_through_session_machine": meta.get("conform", {}).get("runs", 0), "events_replayed_through_session_machine": meta.get("conform", {}).get("events", 0),
+           "models": models, "emission": meta["emission"],
            "rule": RULES.get(prop, ""), "recording_wall_s": meta["wall"]}
     if cov["traces_validated_against_impl"] == 0:
         raise c.Trouble("property %s was not exercised by the recording (vacuous run)" % prop)
